@@ -78,6 +78,15 @@ func (f *fnTrans) call(ins ssa.Instruction, c *ssa.CallCommon, res *ssa.Call) {
 	if ct != nil && len(ct.ParamSpec) > 0 && callee != nil {
 		f.checkParamContracts(ins, name, ct, callee, c)
 	}
+	f.extClosureArgs = nil
+	if !inPkg {
+		// closures handed to code outside the package: it may call them any number of times
+		for _, a := range c.Args {
+			if mc, ok := stripFnVal(a).(*ssa.MakeClosure); ok {
+				f.extClosureArgs = append(f.extClosureArgs, mc)
+			}
+		}
+	}
 	userCB := false
 	if callee == nil && !c.IsInvoke() {
 		_, userCB = f.w.FnValueTargets(c.Value)
@@ -85,6 +94,7 @@ func (f *fnTrans) call(ins ssa.Instruction, c *ssa.CallCommon, res *ssa.Call) {
 	f.userCallback = userCB
 	rts := f.applyCall(ins, name, ct, calleeSig, c.IsInvoke(), args, argT, closureBind, impls, f.callMods(c), !inPkg && ct == nil)
 	f.userCallback = false
+	f.extClosureArgs = nil
 	if res != nil {
 		switch len(rts) {
 		case 0:
@@ -284,6 +294,43 @@ func (f *fnTrans) applyCall(ins ssa.Instruction, name string, ct *Contract, sig 
 				before = Sym(h+"@0", f.w.heapSort[h])
 			}
 			f.fact(And(f.here(), cs.guard), f.frameFormula(h, locs, before, f.heap(h), frameTop))
+		}
+	}
+	// closures the external callee may have run: whatever they do stays within their own "frames"
+	for _, mc := range f.extClosureArgs {
+		fnc := mc.Fn.(*ssa.Function)
+		cct := f.w.Spec.Contracts[f.w.FnName(fnc)]
+		if cct == nil || len(cct.Frames) == 0 {
+			continue
+		}
+		cenv := &Env{w: f.w, names: map[string]TV{}, st: pre, old: pre, lets: f.letsOf(cct)}
+		cenv.lookup = f.closureLookup(mc, pre)
+		cenv.oldLookup = cenv.lookup
+		saved := f.w.extraTypes
+		f.w.extraTypes = map[string]types.Type{}
+		for _, fv := range fnc.FreeVars {
+			f.w.extraTypes[fv.Name()] = deref(fv.Type())
+		}
+		fs := f.frameOfMods(cct.Frames, fnc.Signature, cenv)
+		f.w.extraTypes = saved
+		inMods := map[string]bool{}
+		for _, h := range mods {
+			inMods[h] = true
+		}
+		var hs []string
+		for h := range fs.locs {
+			hs = append(hs, h)
+		}
+		sort.Strings(hs)
+		for _, h := range hs {
+			if !inMods[h] {
+				continue
+			}
+			before, ok := pre.h[h]
+			if !ok {
+				before = Sym(h+"@0", f.w.heapSort[h])
+			}
+			f.factHere(f.frameFormula(h, fs.locs[h], before, f.heap(h), preTop))
 		}
 	}
 	// ... and is assumed to hold after it
